@@ -9,7 +9,8 @@ From Verif Require Import Common.Base Common.Tactics Binary.Model Binary.Spec Bi
 (* ---- write / read round trip ------------------------------------------------------------------------ *)
 (* Every list of typed values (u/i 8,16,24,32,64, byte strings), both byte orders: reading the written
    buffer back on every healthy backend (in-memory bytes; memory map; io.Reader, io.ReadSeeker / file with
-   ANY partition of the stream into non-empty reads, io.EOF after or together with the last bytes;
+   ANY partition of the stream into reads whose runs of empty (0, nil) reads are shorter than 100, io.EOF
+   after or together with the last bytes;
    io.ReaderAt, with or without io.EOF on an exact fit) returns the values, then
    Pos() = bytes consumed, Len() = bytes remaining, Err() = nil.  No panic. *)
 Theorem write_read_roundtrip :
@@ -64,7 +65,7 @@ Print Assumptions backend_independence_past_end.
 
 (* The constructors build healthy sources: NewBinaryReaderBytes, a reader with Bytes(), a memory map, a file,
    the io.ReadAll path (n < 0; for ANY read schedule, zero-length reads included), io.Reader / io.ReadSeeker
-   whose reads are non-empty (io.EOF after or with the last bytes), io.ReaderAt. *)
+   with fewer than 100 consecutive empty reads (io.EOF after or with the last bytes), io.ReaderAt. *)
 Theorem constructors_healthy :
   forall (d sched : list Z),
     (forall ewl failing, construct CBytes d sched ewl failing = Some (SBytes d)) /\
@@ -73,9 +74,9 @@ Theorem constructors_healthy :
     (forall ewl failing, exists s, construct (CFile (len d)) d sched ewl failing = Some s /\ healthy s d) /\
     (forall n ewl, n < 0 -> construct (CPlain n) d sched ewl false = Some (SBytes d)) /\
     (forall n ewl, n < 0 -> construct (CReaderAt n) d sched ewl false = Some (SBytes d)) /\
-    (positive_sched sched -> forall ewl,
+    (tame_sched sched -> forall ewl,
        exists s, construct (CPlain (len d)) d sched ewl false = Some s /\ healthy s d) /\
-    (positive_sched sched -> forall n ewl, n = len d \/ n < 0 ->
+    (tame_sched sched -> forall n ewl, n = len d \/ n < 0 ->
        exists s, construct (CSeeker n) d sched ewl false = Some s /\ healthy s d) /\
     (forall ewl, exists s, construct (CReaderAt (len d)) d [] ewl false = Some s /\ healthy s d) /\
     healthy (SBytes d) d.
@@ -158,7 +159,7 @@ Print Assumptions read8_past_end_streams.
    bytes (iotest.DataErrReader; io.ReaderAt on an exact fit) are healthy sources, so every theorem above
    covers them; the former witnesses leave Err() = nil and report io.EOF only on the next read. *)
 Theorem eof_with_last_bytes :
-  (forall d sched closer, positive_sched sched ->
+  (forall d sched closer, tame_sched sched ->
      healthy (SReader (mkR d sched true E_EOF 0 (len d))) d /\
      healthy (SSeeker (mkK d sched true E_EOF (len d) false closer)) d /\
      healthy (SReaderAt (mkA d [] true E_EOF (len d))) d) /\
@@ -171,15 +172,58 @@ Theorem eof_with_last_bytes :
 Proof. exact eof_with_last_bytes_proof. Qed.
 Print Assumptions eof_with_last_bytes.
 
-(* STILL REFUTED for sources that once return (0, nil) (allowed by io.Reader): the read fails inside the data
-   with "could not read all bytes" (value 0, Err() set, one byte consumed); no panic any more. *)
-Theorem zero_length_read_refuted :
+(* Formerly zero_length_read_refuted (fixed by f857ad9): (0, nil) reads are retried.  The full clause: over
+   EVERY read script whose runs of consecutive empty reads are shorter than 100 (tame_sched), with io.EOF
+   after or together with the last bytes, the sequential reader and the seeking reader return - for every
+   supported operation sequence, past the end included - the values, counts, errors and positions of the
+   in-memory backend (up to the nil-ness of the slice ReadBytes returns). *)
+Theorem empty_reads_tolerated :
+  forall (d sched : list Z) (ewl closer : bool) (ops : list op),
+    tame_sched sched ->
+    (Forall (allowed false) ops ->
+     exists st' sb' outs outsb,
+       run any_backend (new_sys (SReader (mkR d sched ewl E_EOF 0 (len d)))) ops = Some (st', outs) /\
+       run bytes_backend (new_sys d) ops = Some (sb', outsb) /\
+       Forall2 obs_eqv outs outsb /\ cur st' = cur sb' /\ oth st' = oth sb') /\
+    (Forall (allowed true) ops ->
+     exists st' sb' outs outsb,
+       run any_backend (new_sys (SSeeker (mkK d sched ewl E_EOF (len d) false closer))) ops = Some (st', outs) /\
+       run bytes_backend (new_sys d) ops = Some (sb', outsb) /\
+       Forall2 obs_eqv outs outsb /\ cur st' = cur sb' /\ oth st' = oth sb').
+Proof. exact empty_reads_tolerated_proof. Qed.
+Print Assumptions empty_reads_tolerated.
+
+(* ... the former witnesses (one and 99 empty reads inside the data) now return the values with Err() = nil. *)
+Theorem zero_length_reads_retried :
+  tame_sched [1; 0] /\ tame_sched [0] /\ tame_sched (repeat 0 99 ++ [1] ++ repeat 0 99 ++ [2]) /\
   option_map snd (run any_backend (new_sys (SReader (mkR [1; 2; 3] [1; 0] false E_EOF 0 3))) [OU16; OErr; OPos]) =
-    Some [VInt 0; VInt E_SHORT; VInt 1] /\
+    Some [VInt 258; VInt 0; VInt 2] /\
   option_map snd (run any_backend (new_sys (SSeeker (mkK [1; 2; 3] [0] false E_EOF 3 false false))) [OU8; OErr; OPos]) =
-    Some [VInt 0; VInt E_SHORT; VInt 0].
-Proof. exact zero_length_read_refuted_proof. Qed.
-Print Assumptions zero_length_read_refuted.
+    Some [VInt 1; VInt 0; VInt 1] /\
+  option_map snd (run any_backend (new_sys (SReader (mkR [1; 2; 3] (repeat 0 99 ++ [1] ++ repeat 0 99 ++ [2]) false E_EOF 0 3)))
+                    [OU24; OErr; OPos]) = Some [VInt 66051; VInt 0; VInt 3].
+Proof. exact zero_length_reads_retried_proof. Qed.
+Print Assumptions zero_length_reads_retried.
+
+(* The give-up case: when the source answers 100 consecutive times (0, nil) inside one request, Bytes returns
+   no data and io.ErrNoProgress (E_NOPROGRESS), for every source state that still has data, every request
+   length, both backends; the script entries are consumed, the data is not.  So a typed read returns the zero
+   value, Err() = io.ErrNoProgress (sticky), Pos unchanged, and the next request is served (counter restarts);
+   99 empty reads are tolerated. *)
+Theorem no_progress_gives_up :
+  (forall rem sched ewl fe pos size bnil n, rem <> [] -> 0 < n ->
+     reader_bytes (mkR rem (repeat 0 100 ++ sched) ewl fe pos size) bnil n pos =
+       Some (mkR rem sched ewl fe pos size, mkBR [] false E_NOPROGRESS)) /\
+  (forall data sched ewl fe size closer bnil n off, 0 <= off < len data -> 0 < n ->
+     seeker_bytes (mkK data (repeat 0 100 ++ sched) ewl fe size false closer) bnil n off =
+       Some (mkK data sched ewl fe size false closer, mkBR [] false E_NOPROGRESS)) /\
+  option_map snd (run any_backend (new_sys (SReader (mkR [1; 2] (repeat 0 100) false E_EOF 0 2)))
+                    [OU16; OErr; OPos; OU16; OErr; OPos]) =
+    Some [VInt 0; VInt E_NOPROGRESS; VInt 0; VInt 258; VInt E_NOPROGRESS; VInt 2] /\
+  option_map snd (run any_backend (new_sys (SReader (mkR [1; 2] (repeat 0 99) false E_EOF 0 2))) [OU16; OErr; OPos]) =
+    Some [VInt 258; VInt 0; VInt 2].
+Proof. exact no_progress_gives_up_proof. Qed.
+Print Assumptions no_progress_gives_up.
 
 (* Formerly mmap_empty_read_at_end_refuted (fixed by c003402): a memory map is a healthy source; after
    WriteUint8(5), WriteBytes(empty) the reads ReadUint8, ReadBytes(0) leave Err() = nil. *)
